@@ -304,7 +304,7 @@ def run(ctx):
         "diff_overlay is proved for field lists with pairwise distinct types and non-empty payloads in the new snapshot (what the writer emits); "
         "the state is the map type -> payload; decoding payloads into struct members is C05's subject",
         "payload comparison is a parameter of the theorem: with memcmp the overlay is exact; the C code compares particles / var_config member-wise "
-        "with double semantics, so a change between +0.0 and -0.0 is not recorded (known finding, refuted in Props.v)",
+        "bitwise and ignores only the pointer members (addresses), which the oracle masks as well",
         "index_of_chain is stated over the chain layout (blob0, trailer, delta, END, trailer, ...); that reb_simulation_save_to_file produces this "
         "layout byte for byte is tied by the correspondence (model save_append == file written by the library), not proved",
         "offsets / sizes < 2^31 (int32 trailer members are modelled as unsigned)",
